@@ -122,3 +122,27 @@ claim("C11",
 
 for pid in [p for p in ["C%02d"%i for i in range(1,21)] if p not in CLAIMS]:
     na(pid, "check under construction in this session (design in DESIGN.md section 4); not yet claimed")
+
+
+# ---- rules added after the first complete pass (DESIGN.md 8.5) ----
+FRESH = "both receive loops decode every message into a value allocated inside the loop (no field of a request is inherited from the previous one)"
+also("C01", FRESH + ".", "allocation-site rule for decode targets")
+also("C02", "the tracee-string reader returns only the bytes read into this call's buffer and switches primitive only under ENOSYS; getProcCwd/getProcFd return only what this call's readlink reported; the bounded symlink loop never returns a value older than its last resolution step (all rounds enumerated); no package-level mutable state in the tracing packages.", "value-origin tracing; step-token walk of the bounded loop; who-may-write incl. address-taking uses of package variables")
+also("C03", "the combiner of per-path verdicts (two-path calls) is the severity join on every list of length 1..3, constants read by name; no package-level mutable state in the tracing packages.", "enumeration of the combiner over a finite input domain by constant propagation")
+also("C04", "a failed id-map write reaches the waiting child as a non-zero word on every path; the id-map writer is resolved through helpers and its errors are decided path-sensitively.", "path-sensitive error propagation (walker with the error assumed non-nil)")
+also("C05", "SyscallParams.Flags/Source/Target have exactly one writer (the entry-to-raw conversion) and Flags is the entry's field unmodified.", "single-writer rule over all stores to the raw mount record")
+also("C06", "the in-place fcntl tests the very descriptor whose flag it clears; the skip loop's cursor is the value used as the dup3 target (a skip hoisted out of an allocating loop does not count).")
+also("C07", FRESH + "; no scratch duplicate can land on the child's end of the sync socket; a failed id-map write fails the launch.")
+also("C08", FRESH + ".")
+also("C09", "a tracee that vanished at a ptrace request (ESRCH) yields no verdict and the compared error is the primitive's own errno (any library wrapper counts as wrapping).")
+also("C10", FRESH + "; the exploration stops expanding at an orphan reply and has a state cap.")
+also("C11", "'Runner Error' is produced only on the failure side of a nil test (error, recover(), error record, missing mandatory part) or in the documented exit-before-exec arm; 'done' is closed only with an error that is non-nil on that path; Destroy reaches Kill and Wait on every path.", "dominance-based guarded-by rule; must-pass-through on Destroy")
+also("C12", "Destroy reaches Kill and Wait on every path; each end of the sync socket pair is released at most once on every path (explicit, deferred or by the goroutine it was handed to); every truncated-message edge of RecvMsg reaches the closer.", "path enumeration with a release counter")
+also("C13", "the host's Reset reports success only after sending the reset command and receiving its acknowledgement; between creation and sealing the memfd is touched only by the copy, Fd, Seek and Close.")
+also("C14", "the cursor into the received descriptors is itself tested against their number before use; every file operation gets exactly one answer (the product exploration of C10 restricted to Open/Symlink/Delete/Reset).")
+also("C15", "the trap context's pid is written only where the context is built.")
+also("C16", "the forked child closes the parent's end of the sync socket in every configuration, before its first blocking read; no package-level mutable state in ptracer, forkexec, runner/ptrace.", "E1 guard validity over all configurations")
+also("C17", "the OS-thread unlock is registered or made on every path after the lock; the process-wide reader switch flips only under ENOSYS; each end of the sync pair is released at most once; package variables handed out by address (sync.Map, sync.Pool) count as shared state.")
+also("C18", "every lookup inside the matcher's walk is keyed by the name of the current level (so the depth-one test of 'd/*' is about direct children); no package-level mutable state in the file policy.")
+also("C19", FRESH + "; truncation handling is decided per flag test (one mask or one test per bit): every success return clears both bits, every truncated edge reaches the closer; the credential delivered is the standard parser's own copy, never a pointer into the receive buffer.")
+also("C20", "a constructor whose failure cleanup removes the handle's own group builds the handle as not owning; the v1 path helper returns the directory path on every return (also next to 'already exists').")
